@@ -24,6 +24,12 @@ use super::{HeaderRequest, API_KEY_FETCH, API_VERSION};
 
 pub type PartitionHasher = BuildHasherDefault<FnvHasher>;
 
+/// The number of message set levels decoded for one partition: the
+/// set as fetched plus compressed sets nested inside compressed sets.
+/// Brokers deliver one level of compression; the bound only keeps
+/// hostile data from recursing until the stack overflows.
+const MAX_COMPRESSION_DEPTH: usize = 8;
+
 #[derive(Debug)]
 pub struct FetchRequest<'a, 'b> {
     pub header: HeaderRequest<'a>,
@@ -289,7 +295,12 @@ impl<'a> Partition<'a> {
         // we need to parse the rest even if there was an error to
         // consume the input stream (zreader)
         let highwatermark = r.read_i64()?;
-        let msgset = MessageSet::from_slice(r.read_bytes()?, proffs, validate_crc)?;
+        let msgset = MessageSet::from_slice(
+            r.read_bytes()?,
+            proffs,
+            validate_crc,
+            MAX_COMPRESSION_DEPTH,
+        )?;
 
         Ok(Partition {
             partition,
@@ -371,7 +382,12 @@ pub struct Message<'a> {
 
 impl<'a> MessageSet<'a> {
     #[allow(dead_code)]
-    fn from_vec(data: Vec<u8>, req_offset: i64, validate_crc: bool) -> Result<MessageSet<'a>> {
+    fn from_vec(
+        data: Vec<u8>,
+        req_offset: i64,
+        validate_crc: bool,
+        depth: usize,
+    ) -> Result<MessageSet<'a>> {
         // since we're going to keep the original
         // uncompressed vector around without
         // further modifying it and providing
@@ -381,6 +397,7 @@ impl<'a> MessageSet<'a> {
             unsafe { mem::transmute(&data[..]) },
             req_offset,
             validate_crc,
+            depth,
         )?;
         // ~ if `data` itself held a compressed message set, the
         // messages point into the buffer owned by that inner set:
@@ -395,7 +412,20 @@ impl<'a> MessageSet<'a> {
         });
     }
 
-    fn from_slice(raw_data: &[u8], req_offset: i64, validate_crc: bool) -> Result<MessageSet<'_>> {
+    fn from_slice(
+        raw_data: &[u8],
+        req_offset: i64,
+        validate_crc: bool,
+        depth: usize,
+    ) -> Result<MessageSet<'_>> {
+        // ~ `depth` is the number of message set levels we are
+        // still willing to decode: a compressed set nested in a
+        // compressed set costs one recursion per level, so data
+        // nested deeper than that is refused instead of followed
+        // until the stack is exhausted
+        if depth == 0 {
+            return Err(Error::UnsupportedCompression);
+        }
         let mut r = ZReader::new(raw_data);
         let mut msgs = Vec::new();
         while !r.is_empty() {
@@ -428,14 +458,14 @@ impl<'a> MessageSet<'a> {
                         #[cfg(feature = "gzip")]
                         c if c == Compression::GZIP as i8 => {
                             let v = gzip::uncompress(pmsg.value)?;
-                            return MessageSet::from_vec(v, req_offset, validate_crc);
+                            return MessageSet::from_vec(v, req_offset, validate_crc, depth - 1);
                         }
                         #[cfg(feature = "snappy")]
                         c if c == Compression::SNAPPY as i8 => {
                             use std::io::Read;
                             let mut v = Vec::new();
                             SnappyReader::new(pmsg.value)?.read_to_end(&mut v)?;
-                            return MessageSet::from_vec(v, req_offset, validate_crc);
+                            return MessageSet::from_vec(v, req_offset, validate_crc, depth - 1);
                         }
                         _ => return Err(Error::UnsupportedCompression),
                     }
